@@ -188,7 +188,10 @@ def _ini_with_policy(config_policy):
     path = os.path.join(workdir(), "config", name)
     if not os.path.exists(path):
         with open(path, "w") as f:
-            f.write(CONFIG_INI.replace("csvpath = collect, fail, print", "csvpath = " + config_policy))
+            # no [config] path: that entry redirects the loader to the main file
+            ini = CONFIG_INI.replace("csvpath = collect, fail, print", "csvpath = " + config_policy).replace("path = config/config.ini", "path =")
+            assert ini.count("csvpath = " + config_policy) == 1 and "path = config/config.ini" not in ini
+            f.write(ini)
     return path
 
 
